@@ -44,7 +44,7 @@ def gen_cases(tier, seed):
         mag = name in ("afm_cr", "afm_cr_nc", "fm_fe_tet", "afm_nio")  # afm_nio: moments +1/-1 on Ni and exactly 0 on O (a value that is "falsy" in Python)
         cases.append({"kind": "saveload", "crystal": {"name": name, "order": ["asis", "random"][rng.integers(2)], "order_seed": int(rng.integers(100)), "ext_symbols": bool(rng.integers(3) == 0) and not mag},
                       "smat": [np.eye(3, dtype=int).tolist(), np.diag([2, 1, 1]).tolist(), [[1, 1, 0], [-1, 1, 0], [0, 0, 1]]][rng.integers(3)],
-                      "pmat": ["P", "centring"][rng.integers(2)], "calculator": CALCS[i % len(CALCS)], "dataset": ["type1", "type1", "type2", "none"][rng.integers(4)],
+                      "pmat": ["P", "centring"][rng.integers(2)], "calculator": CALCS[i % len(CALCS)], "dataset": ["type1", "type1", "type2", "none", "type1_noforces", "type2_noforces"][rng.integers(6)],
                       "fc": ["full", "compact", "none"][rng.integers(3)], "nac": bool(rng.integers(2)) and not mag, "xz": bool(rng.integers(3) == 0),
                       "custom_masses": bool(rng.integers(4) == 0), "mass_setter": bool(rng.integers(4) == 0), "decoys": bool(rng.integers(2)), "settings_bits": int(rng.integers(32)), "settings_form": int(rng.integers(5)), "seed": int(rng.integers(10 ** 6))})
     for i in range(16 if tier == "quick" else 100):
@@ -165,6 +165,16 @@ def run_case(c):
                 nsnap = 5
                 disp = rng.standard_normal((nsnap, len(sc), 3)) * 0.03
                 ph.dataset = {"displacements": disp, "forces": -np.einsum("ijab,sjb->sia", fcm, disp)}
+            elif c["dataset"] == "type1_noforces":
+                ph.generate_displacements(distance=0.02)  # displacements planned, forces not (yet) there: the object's force constants are all it knows
+            elif c["dataset"] == "type2_noforces":
+                ph.dataset = {"displacements": rng.standard_normal((4, len(sc), 3)) * 0.03}
+            c = dict(c)
+            dataset_kind = c["dataset"]
+            c["dataset_has_forces"] = dataset_kind in ("type1", "type2")
+            if dataset_kind.endswith("_noforces"):
+                c["dataset"] = dataset_kind.split("_")[0]
+                obs["dataset_without_forces"] = 1
             if c["fc"] != "none":
                 ph.force_constants = np.array(fcm if c["fc"] == "full" else fcm[p2s], dtype="double", order="C")
             if c["nac"]:
@@ -196,11 +206,13 @@ def run_case(c):
             # what the file has to contain: the documented defaults of Phonopy.save updated by THIS call's dict (and nothing remembered from earlier calls)
             settings = {"force_sets": True, "displacements": True, "force_constants": False, "born_effective_charge": True, "dielectric_constant": True}
             settings.update(given or {})
-            if (given or {}).get("force_constants") is not False and c["dataset"] == "none" and c["fc"] != "none":
+            # (the force constants are written by default whenever the file would otherwise not determine them: no dataset, or a dataset without
+            # forces - the reloaded object must reproduce the calculation)
+            if (given or {}).get("force_constants") is not False and not c["dataset_has_forces"] and c["fc"] != "none":
                 settings["force_constants"] = True
             present = {"force_sets": bool(re.search(r"^\s+(forces|force):", text, re.M)), "displacements": bool(re.search(r"^(displacements|dataset):", text, re.M)),
                        "force_constants": "force_constants:" in text, "born_effective_charge": "born_effective_charge:" in text, "dielectric_constant": "dielectric_constant:" in text}
-            available = {"force_sets": c["dataset"] != "none", "displacements": c["dataset"] != "none", "force_constants": c["fc"] != "none",
+            available = {"force_sets": c["dataset_has_forces"], "displacements": c["dataset"] != "none", "force_constants": c["fc"] != "none",
                          "born_effective_charge": bool(c["nac"]), "dielectric_constant": bool(c["nac"])}
             want = {k: bool(settings[k] and available[k]) for k in settings}
             want["displacements"] = bool((settings["displacements"] or settings["force_sets"]) and available["displacements"])
@@ -219,7 +231,7 @@ def run_case(c):
                 decoy = models.pair_fc(sc.cell, sc.scaled_positions, sc.symbols, cutoff=3.9, r0=1.3) * 1.7
                 write_FORCE_CONSTANTS(decoy, filename="FORCE_CONSTANTS")
                 write_force_constants_to_hdf5(decoy * 0.5, filename="force_constants.hdf5")
-                if c["dataset"] == "type1":
+                if c["dataset"] == "type1" and c["dataset_has_forces"]:
                     dsd = copy.deepcopy(ph.dataset)
                     for d in dsd["first_atoms"]:
                         d["forces"] = np.array(d["forces"]) * -2.0
@@ -228,7 +240,7 @@ def run_case(c):
                   # (a BORN file in the working directory is the documented LAST resort: it is a decoy only when the yaml itself carries NAC parameters)
                   open("BORN", "w").write("# decoy\n" + ("%13.8f " * 9) % tuple((np.eye(3) * 7.7).flatten()) + "\n" +
                                          "\n".join(("%13.8f " * 9) % tuple((np.eye(3) * (3.3 if i % 2 else -3.3)).flatten()) for i in range(len(ph.primitive))) + "\n")
-            has_forces_in_file = settings["force_sets"] and c["dataset"] != "none"
+            has_forces_in_file = settings["force_sets"] and c["dataset_has_forces"]
             has_fc_in_file = ("force_constants:" in text)
             has_nac_in_file = ("born_effective_charge:" in text) and ("dielectric_constant:" in text)
             try:
